@@ -219,7 +219,42 @@ NESTED_ELSES = ['GOSUB 100', 'INPUT Z', 'PRINT "E2"', 'STOP', ':', 'Z = 3', 'IF 
 ELSE_RESUME += [("nested", a, b, (s1, s2)) for a in (0, 1) for b in (0, 1) for s1 in ELSE_THENS for s2 in NESTED_ELSES]
 
 
+# ... and small nested IF / ELSE structures generated from a grammar: arms that are empty statements, line numbers,
+# transfers, loops, further IFs; one or two ELSEs per IF level in every combination the grammar gives
+ELSE_ARMS = [':', 'PRINT "p"', 'Z = Z + 1', 'GOSUB 100', 'GOTO 30', '30', 'STOP', 'INPUT Z', 'RETURN', 'REM r', 'DATA 1',
+             'FOR I = 1 TO 2', 'NEXT I', 'READ Q', 'RESTORE', 'DIM M(3)', 'END']
+
+
+def else_tree(r, depth):
+    """one IF statement as text: IF v THEN arm [ELSE arm], arms drawn from ELSE_ARMS or nested IFs"""
+    v = r.choice(["A", "B", "C"])
+    def arm(d):
+        if d > 0 and r.chance(0.45):
+            return else_tree(r, d - 1)
+        return r.choice(ELSE_ARMS)
+    txt = f"IF {v} THEN {arm(depth)}"
+    if r.chance(0.7):
+        txt += f" ELSE {arm(depth)}"
+        if r.chance(0.15):
+            txt += f" ELSE {arm(0)}"
+    return txt
+
+
+ELSE_TREES = 220
+
+
+def else_tree_program(r, k):
+    a, b, c = (k >> 0) & 1, (k >> 1) & 1, (k >> 2) & 1
+    body = else_tree(r, 2)
+    tail = r.choice(["", ' : PRINT "t"', " : Z = 9"])
+    head = r.choice(["", 'PRINT "h" : '])
+    return ["5 DATA 7, 8, 9", f"10 A = {a} : B = {b} : C = {c}", f"20 {head}{body}{tail}",
+            '30 PRINT "END" Z', "40 END", '100 PRINT "SUB"', "110 RETURN"]
+
+
 def else_resume_program(r, k):
+    if k >= len(ELSE_RESUME):
+        return else_tree_program(r, k - len(ELSE_RESUME))
     lead, a, b, then = ELSE_RESUME[k]
     if lead == "nested":
         s1, s2 = then
@@ -234,7 +269,7 @@ def run_c06(chk):
     n = 160 if chk.tier == "quick" else 5000
     an_cases = []
     sessions = []
-    for i in range(n + len(ELSE_RESUME)):
+    for i in range(n + len(ELSE_RESUME) + ELSE_TREES):
         r = chk.rng.fork(("c06", i))
         flavour = r.weighted([("typed", 35), ("faulty", 30), ("straight", 20), ("tree", 15)])
         if i >= n:
